@@ -242,8 +242,11 @@ def run(ctx):
             o["v"] = not o["v"]
             return True
         if r["ev"] == "Select":
-            o["k"] = "found" if o["k"] != "found" else "notfound"
-            return True
+            valid = (r["from"] == "center") != (r["to"] == "center")
+            if valid and o["k"] == "found":
+                o["k"] = "notfound"
+                return True
+            return False
         if r["ev"] == "Hints" and o["k"] == "parsed" and o["ins"] and o["ins"][0]:
             o["ins"][0][0][1] = chars("inner" if "".join(o["ins"][0][0][1]) != "inner" else "outer")
             return True
